@@ -55,7 +55,9 @@ Inductive mtype :=
 | MPrim (p:name) | MTuple
 | MRef (refapp ctxapp : option appname) (path : list name)
 | MSet (t:mtype) | MSeq (t:mtype) | MList (t:mtype)
-| MNoType | MOther.
+| MNoType
+(* the other kinds a *sysl.Type can have in a field / parameter / alias position; parseFieldType answers nil for each *)
+| MEnumT | MRelationT | MMap (k v:mtype) | MOneOf (ts:list mtype) | MUnset.
 
 Inductive ty := TyNil | TyPrim (p:name) | TyTuple | TyRef (app:appname) (path:list name) | TySet (t:ty) | TySeq (t:ty).
 
@@ -70,7 +72,7 @@ Fixpoint parse_field_type (app:appname) (t:mtype) : ty :=
   | MSeq t' => TySeq (parse_field_type app t')
   | MNoType => TyNil
   | MList t' => parse_field_type app t'
-  | MOther => TyNil
+  | MEnumT | MRelationT | MMap _ _ | MOneOf _ | MUnset => TyNil       (* the `default:` arm *)
   end.
 
 (* ---------- module projection ---------- *)
@@ -97,16 +99,25 @@ Record endpoint := { e_name : name; e_long : name; e_doc : name; e_pubsub : bool
                      e_source : option (appname * name);             (* Source.Part, the text after " -> " in the name *)
                      e_rest : option (name * name * list param * list param);   (* Method, Path, UrlParam, QueryParam *)
                      e_params : list param; e_attrs : attrs; e_stmts : list stmt }.
-Record constr := { c_len : option (Z * Z); c_prec : Z; c_scale : Z }.
+(* sysl.Type_Constraint: Length, Precision, Scale are what normalizeField reads; Range (two optional sysl.Value bounds),
+   BitWidth and Resolution (base, index) are carried by compiled modules (int32 / int64 / float32 / float64 fields) and
+   are not looked at *)
+Inductive cval := CVInt (z:Z) | CVOther.
+Record constr := { c_len : option (Z * Z); c_prec : Z; c_scale : Z;
+                   c_range : option (option cval * option cval); c_bits : Z; c_res : option (Z * Z) }.
 Record field := { f_name : name; f_ty : mtype; f_opt : bool; f_constraints : list constr; f_attrs : attrs }.
 Inductive tdef :=
 | DTuple (fs:list field)
 | DRelation (pk:list name) (fs:list field)
 | DAlias (t:mtype)                      (* Primitive / Sequence / Set / TypeRef *)
 | DEnum (items:list (name * Z))
-| DOther.                               (* NoType, List, Map, OneOf, unset: a Type row only *)
+(* the kinds normalizeType's switch has no arm for: a Type row (and the type's meta rows) only *)
+| DMap (k v:mtype) | DOneOf (ts:list mtype) | DNoType | DList (t:mtype) | DUnset.
 Record typedecl := { t_name : name; t_doc : name; t_opt : bool; t_def : tdef; t_attrs : attrs }.
-Record view := { v_name : name; v_ret : mtype; v_attrs : attrs }.
+(* sysl.View: normalizeView reads RetType, Attrs and SourceContexts; Param and Expr (opaque: the harness hands over a
+   digest of the expression) are not looked at *)
+Record view := { v_name : name; v_ret : option mtype (* None: the view declares no return type and none was inferred *);
+                 v_attrs : attrs; v_params : list param; v_expr : name }.
 Record app := { ap_name : appname; ap_sname : list str (* the same name as bytes: payload references resolve to it *);
                 ap_long : name; ap_doc : name; ap_attrs : attrs; ap_mixins : list (appname * attrs);
                 ap_eps : list endpoint; ap_types : list typedecl; ap_views : list view }.
@@ -316,7 +327,8 @@ Definition ep_items (cm am:idx_mode) (stmts:list stmt) : list (sitem (list N)) :
   end.
 
 (* a return payload the embedded grammar refuses makes normalizeStatement return the error; one on which
-   parseReturnPayload panics ends Normalize. The first such payload in the order of the walk decides. *)
+   parseReturnPayload panics ends Normalize, and so does a view whose nil return type parseFieldType dereferences.
+   The first such payload / view in the order of the walk decides. *)
 Inductive fault := FRefused | FCrash.
 Fixpoint first_some {A} (l:list (option A)) : option A :=
   match l with [] => None | Some x :: _ => Some x | None :: l' => first_some l' end.
@@ -415,12 +427,14 @@ Definition type_rows (a:appname) (t:typedecl) : list row :=
   | DRelation pk fs => mk RTable a (t_name t :: pk) [] [] TyNil :: concat (map (field_rows a (t_name t)) (sorted_by f_name fs))
   | DAlias mt => [mk RAlias a [t_name t] [] [] (parse_field_type a mt)]
   | DEnum items => [mk REnum a (t_name t :: map fst items) [] (map snd items) TyNil]
-  | DOther => []
+  | DMap _ _ | DOneOf _ | DNoType | DList _ | DUnset => []
   end ++
   meta OType a [t_name t] [] [] (t_attrs t).
 
+(* parseFieldType(app.Name.Part, view.RetType): nil for a nil type when the function guards it (else it never returns) *)
+Definition view_ty (a:appname) (v:view) : ty := match v_ret v with Some t => parse_field_type a t | None => TyNil end.
 Definition view_rows (a:appname) (v:view) : list row :=
-  mk RView a [v_name v] [] [] (parse_field_type a (v_ret v)) :: meta OView a [v_name v] [] [] (v_attrs v).
+  mk RView a [v_name v] [] [] (view_ty a v) :: meta OView a [v_name v] [] [] (v_attrs v).
 
 Definition mixin_rows (a:appname) (m:appname * attrs) : list row :=
   mk RMixin a (fst m) [] [] TyNil :: meta OMixin a (fst m) [] [] (snd m).
@@ -439,8 +453,16 @@ Inductive outcome := Rows (rs:list row) | Refused | Crashed.
 
 Definition ep_fault (g:grammar) (e:endpoint) : option fault :=
   if ep_visits_stmts e then first_some (map (stmt_fault g) (e_stmts e)) else None.
+(* a view without a return type: parseFieldType dereferences the nil type unless it guards it *)
+Definition view_fault (g:grammar) (v:view) : option fault :=
+  match v_ret v, g_nil g with
+  | Some _, _ => None
+  | None, NilGuarded => None
+  | None, _ => Some FCrash
+  end.
+(* normalizeApp: the endpoints, (the types,) then the views, each map in key order *)
 Definition app_fault (g:grammar) (ap:app) : option fault :=
-  first_some (map (ep_fault g) (sorted_by e_name (ap_eps ap))).
+  first_some (map (ep_fault g) (sorted_by e_name (ap_eps ap)) ++ map (view_fault g) (sorted_by v_name (ap_views ap))).
 Definition module_fault (g:grammar) (m:module) : option fault := first_some (map (app_fault g) m).
 
 Definition normalize (cm am:idx_mode) (g:grammar) (m:module) : outcome :=
